@@ -330,7 +330,11 @@ func c20R4(c *Ctx) {
 		})
 		okJoin := false
 		nJoin := 0
-		eachInstr(fn, func(r instrRef) {
+		var bodyFns []*ssa.Function
+		for _, g := range c.logicalBody(fn) {
+			bodyFns = append(bodyFns, fnAndAnons(g)...)
+		}
+		forEachFn(bodyFns, func(r instrRef) {
 			call, ok := r.I.(*ssa.Call)
 			if !ok || calleeName(call.Common()) != "path/filepath.Join" {
 				return
@@ -349,25 +353,53 @@ func c20R4(c *Ctx) {
 		c.verdict(abs != nil && nJoin >= 1 && okJoin, rule, "context-relative", c.pos(fn.Pos()), "relative names are joined with the absolute context directory", "relative file names are not resolved against the absolute context directory")
 		// the directory the cache remembers (and Parse hands on to the sub-workflow loader) is that absolute path too
 		nStore, okStore := 0, true
-		eachInstr(fn, func(r instrRef) {
-			st, ok := r.I.(*ssa.Store)
+		isAbs := func(v ssa.Value) bool {
+			return abs != nil && allSources(v, func(v ssa.Value) bool {
+				ex, ok := v.(*ssa.Extract)
+				return ok && ex.Tuple == ssa.Value(abs) && ex.Index == 0
+			})
+		}
+		isRootStore := func(in ssa.Instruction) *ssa.Store {
+			st, ok := in.(*ssa.Store)
 			if !ok {
-				return
+				return nil
 			}
 			fa, ok := st.Addr.(*ssa.FieldAddr)
 			if !ok {
-				return
+				return nil
 			}
-			fv := fieldAddrVar(fa)
-			if fv == nil || fieldName(fv) != "rootDir" {
-				return
+			if fv := fieldAddrVar(fa); fv == nil || fieldName(fv) != "rootDir" {
+				return nil
 			}
-			nStore++
-			if abs == nil || !allSources(st.Val, func(v ssa.Value) bool {
-				ex, ok := v.(*ssa.Extract)
-				return ok && ex.Tuple == ssa.Value(abs) && ex.Index == 0
-			}) {
-				okStore = false
+			return st
+		}
+		forEachFn(bodyFns, func(r instrRef) {
+			if st := isRootStore(r.I); st != nil {
+				nStore++
+				if !isAbs(st.Val) {
+					okStore = false
+				}
+			}
+			// the cache may be built by a constructor helper: the value it stores as root is this call's argument
+			if call, ok := r.I.(*ssa.Call); ok {
+				callee := call.Common().StaticCallee()
+				if callee == nil || len(callee.Blocks) == 0 || !isRepoFn(callee) {
+					return
+				}
+				eachInstr(callee, func(r2 instrRef) {
+					st := isRootStore(r2.I)
+					if st == nil {
+						return
+					}
+					for i, p := range callee.Params {
+						if st.Val == ssa.Value(p) && i < len(call.Call.Args) {
+							nStore++
+							if !isAbs(call.Call.Args[i]) {
+								okStore = false
+							}
+						}
+					}
+				})
 			}
 		})
 		c.verdict(nStore >= 1 && okStore, rule, "context-root-absolute", c.pos(fn.Pos()), "the cache's root directory is the absolute context directory", "the file cache remembers a root directory other than the absolute path computed when it was created: RootDir() — which Parse passes to the sub-workflow loader — would be resolved against the working directory again later")
@@ -499,4 +531,15 @@ func c20R7(c *Ctx) {
 // C20.R8 = C10.R5: parsing and preparing keep no state between calls (no memo of file contents or prepared parts).
 func c20R8(c *Ctx) {
 	shareRule(c, "C10.R5", "C20.R8", c10R5, "the parse/prepare paths write no engine-lifetime object and no package-level variable (a process-wide memo of file contents, for instance): the result depends on the current contents of the context directory only, not on what an earlier run in the same process loaded")
+}
+
+func forEachFn(fns []*ssa.Function, f func(instrRef)) {
+	seen := map[*ssa.Function]bool{}
+	for _, g := range fns {
+		if seen[g] {
+			continue
+		}
+		seen[g] = true
+		eachInstr(g, f)
+	}
 }
